@@ -206,8 +206,16 @@ static void dump(int full)
 
 static void reset(void)
 {
+    static const struct cstl_heap twin = CSTL_HEAP_INITIALIZER(struct elem, hn, cmp_elem, H_PRIV(1));
+    struct cstl_heap z;
     memset(pool, 0, sizeof(pool));
+    H_POISON_OBJ(heap);
     cstl_heap_init(&heap, cmp_elem, H_PRIV(1), offsetof(struct elem, hn));
+    memset(&z, 0, sizeof(z));
+    cstl_heap_init(&z, cmp_elem, H_PRIV(1), offsetof(struct elem, hn));
+    if (memcmp(&z, &twin, sizeof(z)) != 0) {
+        h_init_mismatch = 1;
+    }
 }
 
 static long cleared[NE + 1];
